@@ -20,7 +20,11 @@ PROP = 'C11'
 
 class _EqHooks(FormulaHooks):
     def inline(self, I, fi, args):
-        return fi.name in ('__eq__', '__hash__')
+        n = fi.name
+        # the two methods and private helpers they are written with
+        return n in ('__eq__', '__hash__') or (
+            n.startswith('_') and not n.startswith('__') and
+            fi.owner is not None)
 
 
 def classify_eq(prog, ci):
@@ -64,6 +68,25 @@ def classify_eq(prog, ci):
     return ('other', sorted(kinds)), f
 
 
+def _positively_incoherent(ek, hk):
+    """an unrecognised shape that nevertheless shows == and hash keyed on
+    different things, or == comparing different things on its two sides"""
+    txt = ' '.join(map(str, ek[1] if len(ek) > 1 else [])) + ' ' + \
+        ' '.join(map(str, hk[1] if len(hk) > 1 else []))
+    # identity-based on one side, printed form on the other
+    if ek[0] == 'str-key' and hk[0] == 'other' and (
+            'id(' in txt or "hash(attr" in txt or
+            all(str(x).startswith("attr($self") for x in hk[1])):
+        # == by printed form, hash from identity or from a stored field
+        # (which does not follow the printed form when a subformula changes)
+        return True
+    if hk[0] == 'str-key' and ek[0] == 'other' and (
+            "cmp(K('is')" in txt or 'id(' in txt or '__class__' in txt or
+            'attr(' in txt):
+        return True
+    return False
+
+
 def classify_hash(prog, ci):
     f = prog.method(ci, '__hash__')
     if f is None:
@@ -91,6 +114,7 @@ def rule_eq1(prog):
     base = prog.cls('language.Formula')
     classes = [c for c in prog.classes.values() if c.is_subclass_of(base)]
     floor('R-EQ-1', 'formula classes', len(classes), 50)
+    pending = []
     for ci in sorted(classes, key=lambda c: c.qn):
         # python sets __hash__ = None in a class that defines __eq__ only
         eq_i = hash_i = None
@@ -117,6 +141,16 @@ def rule_eq1(prog):
                 'tables' % (ci.short(), ci.mro[eq_i].short())))
             continue
         r.ok()
+        if (ek[0] == 'other' or hk[0] == 'other') and \
+                not _positively_incoherent(ek, hk):
+            # neither of the recognised shapes, and nothing that shows the
+            # two keyed on different things: outside the fragment
+            which = ef if ek[0] == 'other' else hf
+            e = Inconclusive('R-EQ-1', 'equality / hash of %s: eq %s, '
+                             'hash %s' % (ci.short(), ek, hk), which.where())
+            e.partial = r
+            pending.append(e)
+            continue
         if ek[0] == 'other' or hk[0] == 'other':
             which = ef if ek[0] == 'other' else hf
             r.fail(Finding(
@@ -155,6 +189,9 @@ def rule_eq1(prog):
                        bc.short(), 'bool-symbols', 'Bool.symbols does not '
                        'map True/False to two different strings: %r' % (
                            syms,)))
+    if pending:
+        pending[0].partial = r
+        raise pending[0]
     return r
 
 
